@@ -794,9 +794,7 @@ func (m *Dense) RankOne(a Matrix, alpha float64, x, y Vector) {
 
 	if a != m {
 		aU, _ := untransposeExtract(a)
-		if rm, ok := aU.(*Dense); ok {
-			m.checkOverlap(rm.RawMatrix())
-		}
+		m.checkOverlapMatrix(aU)
 	}
 
 	var xmat, ymat blas64.Vector
